@@ -87,6 +87,23 @@ example : ∃ c, encryptIp toyIpPrims (54 :: [32,1,13,184,0,0,0,0,0,0,0,0,0,0,0,
   ip_roundtrip_partial toyIpPrims toyIpPrims_lawful _ _ _ (.v6 [32,1,13,184,0,0,0,0,0,0,0,0,0,0,0,1]) .pfx
     (by decide) (by simp [Ip.WF]) (by decide) (by decide) (by decide) (by decide) (by decide)
 
+/-! ## The driver's upper-casing instance on the listed names -/
+
+/-- ASCII lower-casing (only used to state the next theorem). -/
+def asciiLower (n : Bytes) : Bytes := n.map fun b => if 65 ≤ b ∧ b ≤ 90 then b + 32 else b
+
+/-- `upperModel` (the executable stand-in for `from_utf8_lossy + to_uppercase`) leaves every listed
+    name unchanged and maps its lower-case spelling to it: names are matched case-insensitively. -/
+theorem upperModel_names :
+    ∀ n ∈ encryptArms.flatMap (·.1), upperModel n = n ∧ upperModel (asciiLower n) = n := by
+  decide
+
+/-- `aes-128-ſıv` (long s, dotless i) is accepted as AES-128-SIV; the Kelvin sign is not a `K`. -/
+theorem upperModel_unicode :
+    algOfEncrypt (upperModel [97,101,115,45,49,50,56,45,0xC5,0xBF,0xC4,0xB1,118]) = some .siv128 ∧
+    algOfEncrypt (upperModel [65,69,83,45,49,50,56,45,67,66,67,45,80,0xE2,0x84,0xAA,67,83,55]) = none := by
+  decide
+
 /-! ## `D_aead_reject`: `decrypt` panics on a ciphertext the AEAD rejects -/
 
 /-- for every choice of primitives: an AEAD algorithm, key and IV of the right sizes, a ciphertext
